@@ -12,6 +12,7 @@ from __future__ import annotations
 
 import asyncio
 import copy
+import functools
 import json
 import os
 import subprocess
@@ -42,9 +43,33 @@ class WindowFault:
         return fakeapi.Fault(self.kind)
 
 
+def note_seen(body: Any, /, *, value: Any) -> None:
+    """A repeatable (idempotent) transformation of the object for `patch.fns`, as docs/patches.rst recommends."""
+    seen = body.setdefault("status", {}).setdefault("seen", [])
+    if value not in seen:
+        seen.append(value)
+
+
+class Observer03(observe.Observer):
+    """Scripted handlers with one more action: `["fn", "x", <next>]` appends a JSON-patch transformation
+    function to `patch.fns` (it records the handled `spec.x` in `status.seen`), then goes on with <next>."""
+
+    async def _perform(self, action: Any, rec: dict, kwargs: dict) -> Any:
+        while isinstance(action, list) and action and action[0] == "fn":
+            p = kwargs.get("patch")
+            if p is not None:
+                val = ((kwargs.get("body") or {}).get("spec") or {}).get(action[1]) if isinstance(action[1], str) else action[1]
+                p.fns.append(functools.partial(note_seen, value=val))
+                rec.setdefault("fns", []).append(val)
+            action = action[2] if len(action) > 2 else "ok"
+        return await super()._perform(action, rec, kwargs)
+
+
 class Sim03(scenario.Sim):
     def __init__(self, sc: dict):
         super().__init__(sc)
+        self.obs = Observer03(self)
+        self.registry = scenario.build_registry(sc, self.obs)
         self.armed: str | None = None
         self.cluster.before_request.append(self._tag_cycle)
         self.cluster.before_request.append(self._kill_before)
